@@ -69,4 +69,16 @@ CLAIMS = {
         "note": "Trusted: Lean kernel; fault model = EIO at the hooked operation (a failing write is not performed; a failing fsync is performed but reported failed).",
         "technique": "Lean 4 theorems (poison protocol + atomicity of a cut-short sync) + fault injection at every I/O event of the real code",
     },
+    "C10": {
+        "text": "T10.1-T10.4 over the API model: reopen forgets only in-memory handles; values, root, rollback log, seqn, reads, the verdict and effect of every later rollback and the root of every later session are unchanged. Real histories drop and reopen the handle at random positions with independently drawn configurations; root, seqn, values, proofs, occupancy and all later commits/rollbacks are compared with a model that ignores close/open. Found and repaired F4/F4b (reopen resurrected pruned rollback deltas).",
+        "design_ref": "§4 C10",
+        "note": "Trusted: Lean kernel; that the directory holds the committed state is C03/C04 + the differential; T10.1 full refinement through the disk model is a stretch item.",
+        "technique": "Lean 4 theorems on the reopen transition of the API model + reopen-at-random-position history differential",
+    },
+    "C13": {
+        "text": "The specification model has no configuration parameter (roots, values, proofs, verdicts are functions of the history alone); T13.1 proves by kernel evaluation of the full table that for every shard/worker count 1..64 shard_regions partitions the 64 root children and shard_index_for names the owning region. Real histories are executed under a matrix of configurations and every observable must be identical and equal to the model.",
+        "design_ref": "§4 C13",
+        "note": "Trusted: Lean kernel (decide +kernel on a finite table); schedules of the real worker threads are sampled, not quantified; sha2 not exercised.",
+        "technique": "Lean 4 theorem (finite table, decide +kernel) + configuration-matrix differential of identical histories",
+    },
 }
